@@ -1,11 +1,290 @@
 import Tmcg.Driver
+import Tmcg.Model.Rbc
 /-
   Line-protocol handlers for the reliable-broadcast model (C14); kept in a separate file so that
   it can be developed independently of Tmcg/Driver.lean.
+
+  A party state is 31 tokens (no blanks inside a token):
+    n t j fifo fifo_skip ID s
+    [last_IDs] [last_s] [last_deliver_s: a;b;c,…]
+    [recover_s: id:s,…] [recover_deliver_s: id:a;b;c,…]
+    [tags: id:sender:seq,…]                       -- table; everything below refers to tags by index
+    [send] [echo] [ready] [request] [answer] [retrieve] [deliver]     -- peer:tag,…
+    [mbar: tag:value,…] [dbar: tag:value,…]
+    [e_d: tag:digest:count,…] [r_d: …]
+    [retrieve_buf: tag:v0;v1;…,…]
+    [deliver_buf: tag:action:payload,…]           -- in list order
+    [deliver_s] [deliver_error]
+    [buf_msg: a;b;c,… one group per peer] [buf_mpz] [buf_id]
+  Canonical order: tag table sorted by (id, sender, seq); every set / map sorted by key.
+
+    rbc.step <state> [words] <staged|none> [H: m:h,…] [T: id:sender:seq:h,…] => <state> [sent: dst:id:sender:seq:action:payload,…] <none|who:value|throw:runtime_error>
+    rbc.deliverfrom <state> i_in [words] <staged|none> [H] [T] => <state> [sent] <none|value:v|throw:runtime_error>
+    rbc.queuefrom <state> m i_in => <state>
+    rbc.broadcast <state> m rnd => <state> [sent]
+    rbc.setid <state> newID fifo => <state>      (also rbc.recoverid)
+    rbc.unsetid <state> fifo => <state>
 -/
 namespace Tmcg.DriverRbc
-open Tmcg Tmcg.Driver
+open Tmcg Tmcg.Driver Tmcg.Rbc
 
-def handlers : List (String × Handler) := []
+/-! ### parsing -/
+
+def pSemi (s : String) : Option (List Int) :=
+  if s.isEmpty then some [] else (s.splitOn ";").mapM pInt
+
+def pColon (s : String) : List String := s.splitOn ":"
+
+def pGroups (s : String) : Option (List (List Int)) := do
+  if s = "[]" then some [] else
+  if s.length < 2 || s.front != '[' || s.back != ']' then none else
+  let inner := ((s.drop 1).dropEnd 1).toString
+  (inner.splitOn ",").mapM pSemi
+
+def pTags (s : String) : Option (List Tag) := do
+  let l ← pList s
+  l.mapM fun e => match pColon e with
+    | [a, b, c] => do let a ← pInt a; let b ← pInt b; let c ← pInt c; some ⟨a, b, c⟩
+    | _ => none
+
+def pFilter (tags : List Tag) (s : String) : Option Filter := do
+  let l ← pList s
+  l.mapM fun e => match pColon e with
+    | [a, b] => do let a ← pNat a; let b ← pNat b; let t ← tags[b]?; some (a, t)
+    | _ => none
+
+def pTagInt (tags : List Tag) (s : String) : Option (List (Tag × Int)) := do
+  let l ← pList s
+  l.mapM fun e => match pColon e with
+    | [a, b] => do let a ← pNat a; let b ← pInt b; let t ← tags[a]?; some (t, b)
+    | _ => none
+
+def pCounts (tags : List Tag) (s : String) : Option Counts := do
+  let l ← pList s
+  l.mapM fun e => match pColon e with
+    | [a, d, c] => do let a ← pNat a; let d ← pInt d; let c ← pNat c; let t ← tags[a]?; some ((t, d), c)
+    | _ => none
+
+def pTagVec (tags : List Tag) (s : String) : Option (List (Tag × List Int)) := do
+  let l ← pList s
+  l.mapM fun e => match pColon e with
+    | [a, v] => do let a ← pNat a; let v ← pSemi v; let t ← tags[a]?; some (t, v)
+    | _ => none
+
+def pIntVec (s : String) : Option (List (Int × List Int)) := do
+  let l ← pList s
+  l.mapM fun e => match pColon e with
+    | [a, v] => do let a ← pInt a; let v ← pSemi v; some (a, v)
+    | _ => none
+
+def pIntInt (s : String) : Option (List (Int × Int)) := do
+  let l ← pList s
+  l.mapM fun e => match pColon e with
+    | [a, b] => do let a ← pInt a; let b ← pInt b; some (a, b)
+    | _ => none
+
+def pDbuf (tags : List Tag) (s : String) : Option (List Msg) := do
+  let l ← pList s
+  l.mapM fun e => match pColon e with
+    | [a, ac, pl] => do
+      let a ← pNat a; let ac ← pInt ac; let pl ← pInt pl; let t ← tags[a]?
+      some ⟨t.id, t.sender, t.seq, ac, pl⟩
+    | _ => none
+
+def pState : List String → Option (Party × List String)
+  | n :: t :: j :: fifo :: fs :: ID :: s :: lids :: ls :: lds :: rs :: rds :: tags ::
+    fsend :: fecho :: fready :: freq :: fans :: fretr :: fdel :: mbar :: dbar :: ed :: rd ::
+    rbuf :: dbuf :: ds :: derr :: bmsg :: bmpz :: bid :: rest => do
+    let n ← pNat n; let t ← pNat t; let j ← pNat j; let fifo ← pNat fifo; let fs ← pNat fs
+    let ID ← pInt ID; let s ← pInt s
+    let lids ← pIntList lids; let ls ← pIntList ls; let lds ← pGroups lds
+    let rs ← pIntInt rs; let rds ← pIntVec rds
+    let tags ← pTags tags
+    let fsend ← pFilter tags fsend; let fecho ← pFilter tags fecho; let fready ← pFilter tags fready
+    let freq ← pFilter tags freq; let fans ← pFilter tags fans; let fretr ← pFilter tags fretr
+    let fdel ← pFilter tags fdel
+    let mbar ← pTagInt tags mbar; let dbar ← pTagInt tags dbar
+    let ed ← pCounts tags ed; let rd ← pCounts tags rd
+    let rbuf ← pTagVec tags rbuf; let dbuf ← pDbuf tags dbuf
+    let ds ← pIntList ds; let derr ← pNatList derr
+    let bmsg ← pGroups bmsg; let bmpz ← pGroups bmpz; let bid ← pGroups bid
+    some ({ n := n, t := t, j := j, fifo := fifo = 1, fifoSkip := fs, ID := ID, s := s,
+            lastIDs := lids, lastS := ls, lastDeliverS := lds, recoverS := rs, recoverDeliverS := rds,
+            send := fsend, echo := fecho, ready := fready, request := freq, answer := fans,
+            retrieve := fretr, deliver := fdel, mbar := mbar, dbar := dbar, eD := ed, rD := rd,
+            retrieveBuf := rbuf, deliverBuf := dbuf, deliverS := ds, deliverError := derr.map (· = 1),
+            bufMsg := bmsg, bufMpz := bmpz, bufId := bid }, rest)
+  | _ => none
+
+/-! ### canonical printing -/
+
+def tagLe (a b : Tag) : Bool :=
+  if a.id ≠ b.id then a.id < b.id
+  else if a.sender ≠ b.sender then a.sender < b.sender
+  else a.seq ≤ b.seq
+
+/-- drop adjacent duplicates (the input is sorted) -/
+def dedup {α} [DecidableEq α] : List α → List α
+  | [] => []
+  | [x] => [x]
+  | x :: y :: rest => if x = y then dedup (y :: rest) else x :: dedup (y :: rest)
+
+def tagTable (p : Party) : List Tag :=
+  let all := (p.send ++ p.echo ++ p.ready ++ p.request ++ p.answer ++ p.retrieve ++ p.deliver).map (·.2)
+    ++ p.mbar.map (·.1) ++ p.dbar.map (·.1) ++ p.eD.map (·.1.1) ++ p.rD.map (·.1.1)
+    ++ p.retrieveBuf.map (·.1) ++ p.deliverBuf.map Msg.tag
+  dedup (all.mergeSort tagLe)
+
+def tIdx (tags : List Tag) (t : Tag) : Nat := tags.idxOf t
+
+def brk (l : List String) : String := "[" ++ ",".intercalate l ++ "]"
+def semi (l : List Int) : String := ";".intercalate (l.map toString)
+
+def showFilter (tags : List Tag) (f : Filter) : String :=
+  let l := (f.map fun (a, t) => (a, tIdx tags t)).mergeSort fun a b => a.1 < b.1 || (a.1 = b.1 && a.2 ≤ b.2)
+  brk (l.map fun (a, b) => s!"{a}:{b}")
+
+def showTagInt (tags : List Tag) (m : List (Tag × Int)) : String :=
+  let l := (m.map fun (t, v) => (tIdx tags t, v)).mergeSort fun a b => a.1 ≤ b.1
+  brk (l.map fun (a, b) => s!"{a}:{b}")
+
+def showCounts (tags : List Tag) (m : Counts) : String :=
+  let l := (m.map fun ((t, d), c) => (tIdx tags t, d, c)).mergeSort
+    fun a b => a.1 < b.1 || (a.1 = b.1 && a.2.1 ≤ b.2.1)
+  brk (l.map fun (a, d, c) => s!"{a}:{d}:{c}")
+
+def showState (p : Party) : String :=
+  let tags := tagTable p
+  let rs := p.recoverS.mergeSort fun a b => a.1 ≤ b.1
+  let rds := p.recoverDeliverS.mergeSort fun a b => a.1 ≤ b.1
+  let rbuf := (p.retrieveBuf.map fun (t, v) => (tIdx tags t, v)).mergeSort fun a b => a.1 ≤ b.1
+  " ".intercalate [
+    toString p.n, toString p.t, toString p.j, showBool p.fifo, toString p.fifoSkip, toString p.ID, toString p.s,
+    showList p.lastIDs, showList p.lastS, brk (p.lastDeliverS.map semi),
+    brk (rs.map fun (a, b) => s!"{a}:{b}"), brk (rds.map fun (a, v) => s!"{a}:{semi v}"),
+    brk (tags.map fun t => s!"{t.id}:{t.sender}:{t.seq}"),
+    showFilter tags p.send, showFilter tags p.echo, showFilter tags p.ready, showFilter tags p.request,
+    showFilter tags p.answer, showFilter tags p.retrieve, showFilter tags p.deliver,
+    showTagInt tags p.mbar, showTagInt tags p.dbar, showCounts tags p.eD, showCounts tags p.rD,
+    brk (rbuf.map fun (a, v) => s!"{a}:{semi v}"),
+    brk (p.deliverBuf.map fun m => s!"{tIdx tags m.tag}:{m.action}:{m.payload}"),
+    showList p.deliverS, brk (p.deliverError.map showBool),
+    brk (p.bufMsg.map semi), brk (p.bufMpz.map semi), brk (p.bufId.map semi)]
+
+def showSent (s : Sent) : String :=
+  brk (s.map fun (d, m) => s!"{d}:{m.id}:{m.sender}:{m.seq}:{m.action}:{m.payload}")
+
+/-! ### oracles, staged message, permutation -/
+
+def pStaged (s : String) : Option (Option (Nat × Msg)) :=
+  if s = "none" then some none
+  else match pColon s with
+    | [f, a, b, c, d, e] => do
+      let f ← pNat f; let a ← pInt a; let b ← pInt b; let c ← pInt c; let d ← pInt d; let e ← pInt e
+      some (some (f, ⟨a, b, c, d, e⟩))
+    | _ => none
+
+def pHLog (s : String) : Option (List (Int × Int)) := pIntInt s
+
+def pTLog (s : String) : Option (List (Tag × Int)) := do
+  let l ← pList s
+  l.mapM fun e => match pColon e with
+    | [a, b, c, h] => do let a ← pInt a; let b ← pInt b; let c ← pInt c; let h ← pInt h; some (⟨a, b, c⟩, h)
+    | _ => none
+
+def mkHash (log : List (Int × Int)) (dflt : Int) : Int → Int :=
+  fun m => (aGet log m).getD dflt
+def mkTagHash (log : List (Tag × Int)) (dflt : Int) : Tag → Int :=
+  fun t => (aGet log t).getD dflt
+
+/-- run with two different defaults for unlogged oracle queries; the answers must not matter -/
+def withOracles (hl : List (Int × Int)) (tl : List (Tag × Int)) (f : (Int → Int) → (Tag → Int) → String) : String :=
+  let a := f (mkHash hl (-1)) (mkTagHash tl 1)
+  let b := f (mkHash hl (-2)) (mkTagHash tl (10 ^ 400))
+  if a = b then a else "oracle-mismatch"
+
+/-- the permutation the loop draws from the served words; all words must be used -/
+def permOf (n : Nat) (draws : Bool) (ws : List Nat) : Except String (List Nat) :=
+  if !draws then (if ws.isEmpty then .ok (List.range n) else .error "unexpected-words")
+  else match Rng.randomPermutationFast n ws with
+    | .error e => .error (toString e)
+    | .ok none => .error "words-exhausted"
+    | .ok (some (pi, rest)) => if rest.isEmpty then .ok pi else .error "words-left"
+
+def showOutcome : Outcome → String
+  | .idle => "none"
+  | .delivered who m => s!"{who}:{m}"
+  | .threw => "throw:runtime_error"
+
+/-! ### handlers -/
+
+def hStep : Handler := fun args => do
+  let (p, rest) ← pState args
+  match rest with
+  | [ws, staged, hl, tl] =>
+    let ws ← pNatList ws; let staged ← pStaged staged; let hl ← pHLog hl; let tl ← pTLog tl
+    match permOf p.n (drawsPermutation p) ws with
+    | .error e => some e
+    | .ok pi =>
+      some (withOracles hl tl fun H T =>
+        let r := step H T p pi staged
+        s!"{showState r.party} {showSent r.sent} {showOutcome r.out}")
+  | _ => none
+
+def hDeliverFrom : Handler := fun args => do
+  let (p, rest) ← pState args
+  match rest with
+  | [iIn, ws, staged, hl, tl] =>
+    let iIn ← pNat iIn
+    let ws ← pNatList ws; let staged ← pStaged staged; let hl ← pHLog hl; let tl ← pTLog tl
+    match permOf p.n (deliverFromCallsDeliver p iIn && drawsPermutation p) ws with
+    | .error e => some e
+    | .ok pi =>
+      some (withOracles hl tl fun H T =>
+        let r := deliverFrom H T p iIn pi staged
+        let out := if r.threw then "throw:runtime_error" else match r.value with
+          | none => "none"
+          | some v => s!"value:{v}"
+        s!"{showState r.party} {showSent r.sent} {out}")
+  | _ => none
+
+def hQueueFrom : Handler := fun args => do
+  let (p, rest) ← pState args
+  match rest with
+  | [m, iIn] =>
+    let m ← pInt m; let iIn ← pNat iIn
+    some (showState (queueFrom p m iIn))
+  | _ => none
+
+def hBroadcast : Handler := fun args => do
+  let (p, rest) ← pState args
+  match rest with
+  | [m, rnd] =>
+    let m ← pInt m; let rnd ← pInt rnd
+    let (q, sent) := broadcast p m rnd
+    some s!"{showState q} {showSent sent}"
+  | _ => none
+
+def hSetID (recover : Bool) : Handler := fun args => do
+  let (p, rest) ← pState args
+  match rest with
+  | [newID, fifo] =>
+    let newID ← pInt newID; let fifo ← pNat fifo
+    some (showState (if recover then recoverID p newID (fifo = 1) else setID p newID (fifo = 1)))
+  | _ => none
+
+def hUnsetID : Handler := fun args => do
+  let (p, rest) ← pState args
+  match rest with
+  | [fifo] =>
+    let fifo ← pNat fifo
+    some (showState (unsetID p (fifo = 1)))
+  | _ => none
+
+def handlers : List (String × Handler) := [
+  ("rbc.step", hStep), ("rbc.deliverfrom", hDeliverFrom), ("rbc.queuefrom", hQueueFrom),
+  ("rbc.broadcast", hBroadcast), ("rbc.setid", hSetID false), ("rbc.recoverid", hSetID true),
+  ("rbc.unsetid", hUnsetID)
+]
 
 end Tmcg.DriverRbc
